@@ -2,7 +2,7 @@
 import re
 from ..core import pan, terms, tab, ordrules
 from ..core.facts import callee_name
-from ..core.prog import canon, Prog
+from ..core.prog import canon, alloc_site, Prog
 from . import panrules
 from .iter_rules import *
 
@@ -97,7 +97,14 @@ def run(chk, ctx):
         chk.require(kinds == want, "TAB", "TAB:build_output_indices:three-way", "Virtual => Virtual; position Some(n) => Output(n); else None", "build_output_indices decides %s" % kinds)
         # exact decision table of one loop iteration: every decision taken between fetching the expected
         # index and pushing the entry, and the entry pushed
-        pushb = [bb for bb, t in boi.calls() if callee_name(t)[0] == "std::vec::Vec::push" and canon(P.call_arg_terms(boi, bb)[0]).startswith("Vec::with_capacity")]
+        # the layout vector is the one that is stored into self.output_indices (identified by its allocation site, not by how it is pre-sized)
+        out_sites = set()
+        for bb_ in sorted(boi.reachable_blocks()):
+            for i_, st_ in enumerate(boi.blocks[bb_]["stmts"]):
+                if st_["s"] == "assign" and any(isinstance(e, dict) and e.get("f") == "output_indices" for e in st_["lhs"]["p"]):
+                    out_sites.add(alloc_site(P.resolve(boi, P.sl(boi).rvalue(st_["rv"], bb_, i_))))
+        is_out = lambda bb_: len(out_sites) == 1 and None not in out_sites and alloc_site(P.call_arg_terms(boi, bb_)[0]) in out_sites
+        pushb = [bb for bb, t in boi.calls() if callee_name(t)[0] == "std::vec::Vec::push" and is_out(bb)]
         nextb = [bb for bb, t in boi.calls() if callee_name(t)[0] == "<std::slice::Iter<T> as std::iter::Iterator>::next"]
         if chk.anchor("output_indices loop", len(pushb) == 1 and len(nextb) == 1):
             rows = set()
@@ -128,7 +135,7 @@ def run(chk, ctx):
             want = {(frozenset(), "PartialEq<&B> for &A>::eq(elem([T]::iter(outputs)).signal, self.signals[EntryIndex::signal_index(some!(Iterator::next([T]::iter(self.expected_indices))))])")}
             chk.require(pt == want, "ORG", "ORG:build_output_indices:compares-with-current-signal", "|o| o.signal == signal of the current expected index", "position closure is %s" % sorted(pt, key=str))
         # one push per element, in order
-        pushes = [(bb, [canon(x) for x in P.call_arg_terms(boi, bb)]) for bb, t in boi.calls() if callee_name(t)[0] == "std::vec::Vec::push" and canon(P.call_arg_terms(boi, bb)[0]).startswith("Vec::with_capacity")]
+        pushes = [(bb, [canon(x) for x in P.call_arg_terms(boi, bb)]) for bb, t in boi.calls() if callee_name(t)[0] == "std::vec::Vec::push" and is_out(bb)]
         cyc = P.cfg(boi).cyclic_blocks()
         chk.require(len(pushes) == 1 and pushes[0][0] in cyc, "CNT", "CNT:build_output_indices:one-push-per-expected-index", "output_indices.push(entry) once per loop iteration", "%d push site(s) into output_indices (in loop: %s)" % (len(pushes), [p[0] in cyc for p in pushes]))
         # on every path through one loop iteration the push happens exactly once
@@ -139,7 +146,7 @@ def run(chk, ctx):
             for i, st in enumerate(boi.blocks[bb]["stmts"]):
                 if st["s"] == "assign" and any(isinstance(e, dict) and e.get("f") == "output_indices" for e in st["lhs"]["p"]):
                     stored.add(canon(P.sl(boi).rvalue(st["rv"], bb, i)))
-        chk.require(stored == {"Vec::with_capacity([T]::len(outputs))"}, "ORG", "ORG:build_output_indices:stores-the-built-vector", "self.output_indices = output_indices", "self.output_indices = %s" % stored)
+        chk.require(stored == {"Vec::new()"} and len(out_sites) == 1 and None not in out_sites, "ORG", "ORG:build_output_indices:stores-the-built-vector", "self.output_indices = output_indices", "self.output_indices = %s" % stored)
     # alignment of the three pipelines
     ge = P.body(TD + "generate_expected_entries")
     if chk.anchor("generate_expected_entries", ge):
